@@ -2434,3 +2434,430 @@ def check_C12(res):
         "samples": [pairs[0][0].describe()["events"][18:30]],
         "l2": r["summary"]})
     res.assumptions = ["403 vs 404/442 on PRIVMSG/MODE/TOPIC and LUSERS' channel count do reveal existence; the property restricts itself to LIST/NAMES/WHO/WHOIS and speaking"]
+
+
+# ====================================================================== C13
+UNI_WS = set([0x9, 0xA, 0xB, 0xC, 0xD, 0x20, 0x85, 0xA0, 0x1680, 0x2028, 0x2029, 0x202F, 0x205F, 0x3000] + list(range(0x2000, 0x200B)))
+ASCII_WS = set(" \t\n\x0c\r")
+VERB_MIN = dict(CAP=1, AUTHENTICATE=0, PASS=1, NICK=1, USER=4, PING=1, PONG=1, OPER=2, QUIT=0, JOIN=1, PART=1, TOPIC=1, NAMES=0, LIST=0,
+                INVITE=2, KICK=2, MOTD=0, VERSION=0, ADMIN=0, CONNECT=1, LUSERS=0, TIME=0, STATS=1, LINKS=0, HELP=0, INFO=0, MODE=1,
+                PRIVMSG=2, NOTICE=2, WHO=1, WHOIS=1, WHOWAS=1, KILL=2, REHASH=0, RESTART=0, SQUIT=2, AWAY=0, USERHOST=1, WALLOPS=1,
+                ISON=1, DIE=0)
+
+
+def py_validate_source(s):
+    if ":" in s:
+        return False
+    if "!" in s and "@" in s:
+        return s.index("!") < s.index("@")
+    return True
+
+
+def py_tokenize(line):
+    """the grammar of the property statement: optional ':'source, command, blank-separated middle parameters, and a
+    final parameter introduced by a ':' that follows a blank and runs to the end of the line"""
+    i = 0
+    while i < len(line) and ord(line[i]) in UNI_WS:
+        i += 1
+    s = line[i:]
+    if s == "":
+        return ("ERR", "Empty")
+    k = None
+    for j in range(1, len(s)):
+        if s[j] == ":" and s[j - 1] in ASCII_WS:
+            k = j
+            break
+    rest, trailing = (s, None) if k is None else (s[:k], s[k + 1:])
+    words = [w for w in re.split("[ \t\n\x0c\r]+", rest) if w != ""]
+    source = None
+    if s[0] == ":":
+        source = words[0][1:]
+        words = words[1:]
+        if not py_validate_source(source):
+            return ("ERR", "WrongSource")
+    if not words:
+        return ("ERR", "NoCommand")
+    return ("OK", source, words[0], words[1:] + ([trailing] if trailing is not None else []))
+
+
+def rust_debug_str(s):
+    import unicodedata
+    o = ['"']
+    for ch in s:
+        if ch == '"':
+            o.append('\\"')
+        elif ch == "\\":
+            o.append("\\\\")
+        elif ch == "\t":
+            o.append("\\t")
+        elif ch == "\r":
+            o.append("\\r")
+        elif ch == "\n":
+            o.append("\\n")
+        elif ch == "\0":
+            o.append("\\0")
+        elif ch != " " and unicodedata.category(ch) in ("Cc", "Cf", "Cs", "Co", "Cn", "Zl", "Zp", "Zs", "Mn", "Me"):
+            o.append("\\u{%x}" % ord(ch))
+        else:
+            o.append(ch)
+    o.append('"')
+    return "".join(o)
+
+
+def rust_debug_message(tok):
+    _, src, cmd, params = tok
+    return "Message { source: %s, command: %s, params: [%s] }" % (
+        "None" if src is None else "Some(%s)" % rust_debug_str(src), rust_debug_str(cmd), ", ".join(rust_debug_str(p) for p in params))
+
+
+C13_VERBS = list(VERB_MIN)
+C13_MID = ["#a", "#b", "&loc", "alice", "bob", "a:b", "x:", "#a:b", "#a,#b", "+o-v", "+k", "*", "?", "é", "漢字", "😀", "1", "0", "302", "LS", "END",
+           "~@#a", "a!b@c", "irc.irc", "a" * 60, "\x01ACTION", "=", "-", "q\"uo", "back\\slash"]
+C13_TRAIL = ["", " ", ":", "::", "hello world", " leading blank", "trailing blank ", "a:b :c", ": x", "tab\tinside", "cr\rinside", "ff\x0cinside",
+             "é 漢字 😀", "x" * 400, ":)", "#a", "nbsp x", "　wide"]
+C13_SEPS = [" ", " ", " ", "  ", "\t", " \t ", "\x0c", "\r", "   "]
+
+
+def c13_line(rng):
+    r = rng.random()
+    if r < 0.04:
+        return rng.choice(["", " ", "\t", " ", "　 ", ":", ": ", ":src", ":src ", " :x", ":a:b CMD", ":a@b!c CMD x", "::", ":é!ü@漢 privmsg"])
+    v = rng.choice(C13_VERBS) if rng.random() < 0.9 else rng.choice(["FOO", "PRIVMSGX", "1459", "é", "JOI", "join#a", "P:Q"])
+    if rng.random() < 0.5:
+        v = "".join(ch.lower() if rng.random() < 0.5 else ch for ch in v)
+    n = rng.choice([0, 0, 1, 1, 2, 2, 3, 4, 5, 7, 16])
+    parts = [v] + [rng.choice(C13_MID) for _ in range(n)]
+    line = parts[0]
+    for p in parts[1:]:
+        line += rng.choice(C13_SEPS) + p
+    if rng.random() < 0.55:
+        line += rng.choice(C13_SEPS) + ":" + rng.choice(C13_TRAIL)
+    elif rng.random() < 0.15:
+        line += rng.choice(C13_SEPS)
+    if rng.random() < 0.2:
+        line = ":" + rng.choice(["n!u@h", "srv.x", "é", "n@h", "a!b", "bad:src", "a@b!c"]) + rng.choice(C13_SEPS) + line
+    if rng.random() < 0.15:
+        line = rng.choice([" ", "  ", "\t", " ", "　", "\r"]) + line
+    return line
+
+
+def aupper(x):
+    return "".join(ch.upper() if "a" <= ch <= "z" else ch for ch in x)
+
+
+def c13_classify(tok):
+    """what the property prescribes for a tokenised line: ('unknown', name) | ('needmore',) | None (executed or parameter-specific answer)"""
+    verb = aupper(tok[2])
+    if verb not in VERB_MIN:
+        return "UnknownCommand(%s)" % rust_debug_str(aupper(tok[2]))
+    if len(tok[3]) < VERB_MIN[verb]:
+        return "NeedMoreParams"
+    return None
+
+
+RELAY_VERBS = ("PRIVMSG", "NOTICE", "TOPIC", "PART", "KICK", "NICK", "INVITE", "WALLOPS")
+
+
+def relay_oracle(t, steps):
+    """every emitted line is CRLF-terminated; a relayed command re-parsed by its receiver yields what the originator sent"""
+    fails = []
+    cm = ConnMap(t.cfg.name)
+    prev = None
+    for s in sorted(steps, key=lambda s: s["k"]):
+        ev = t.events[s["k"]]
+        for c, ls in (s.get("out") or {}).items():
+            for l in ls:
+                if "<NOCR>" in l:
+                    fails.append(("a line emitted to connection %s is not CRLF-terminated: %r" % (c, l[:120]), {"step": s["k"]}))
+        if ev[0] == "L" and isinstance(ev[2], str) and prev is not None and not s.get("panics"):
+            actor = cm.nick.get(ev[1])
+            tok = py_tokenize(ev[2])
+            if tok[0] == "OK" and actor in prev["users"] and aupper(tok[2]) in RELAY_VERBS and c13_classify(tok) is None:
+                verb, ps = aupper(tok[2]), tok[3]
+                src = prev["users"][actor]["source"]
+                for c, ls in (s.get("out") or {}).items():
+                    for l in ls:
+                        l = l.replace("<NOCR>", "")
+                        if not l.startswith(":" + src + " "):
+                            continue
+                        rt = py_tokenize(l)
+                        if rt[0] != "OK" or rt[1] != src or rt[2].upper() != verb:
+                            fails.append(("relay of %r re-parses as %r" % (ev[2], rt), {"step": s["k"], "relayed": l}))
+                            continue
+                        rp = rt[3]
+                        exp = None
+                        if verb in ("PRIVMSG", "NOTICE"):
+                            exp_text = ps[1]
+                            if len(rp) < 2 or rp[1] != exp_text or rp[0] not in ps[0].split(","):
+                                exp = "target in %r and text %r" % (ps[0], exp_text)
+                        elif verb == "TOPIC" and len(ps) >= 2:
+                            if rp[:2] != [ps[0], ps[1]]:
+                                exp = repr([ps[0], ps[1]])
+                        elif verb == "PART":
+                            if len(rp) < 1 or rp[0] not in ps[0].split(",") or (len(ps) >= 2 and rp[1:] != [ps[1]]) or (len(ps) < 2 and len(rp) > 1):
+                                exp = "channel in %r and reason %r" % (ps[0], ps[1:2])
+                        elif verb == "KICK":
+                            if len(rp) < 2 or rp[0] != ps[0] or rp[1] not in ps[1].split(",") or (len(ps) >= 3 and rp[2:] != [ps[2]]):
+                                exp = "channel %r, a victim of %r, comment %r" % (ps[0], ps[1], ps[2:3])
+                        elif verb == "NICK":
+                            if rp[:1] != [ps[0]]:
+                                exp = repr([ps[0]])
+                        elif verb == "INVITE":
+                            if rp[:2] != [ps[0], ps[1]]:
+                                exp = repr(ps[:2])
+                        elif verb == "WALLOPS":
+                            if rp[:1] != [ps[0]]:
+                                exp = repr([ps[0]])
+                        if exp:
+                            fails.append(("relay of %r to connection %s re-parses with parameters %r, the originator sent %s" % (ev[2], c, rp, exp),
+                                          {"step": s["k"], "relayed": l}))
+            # the AWAY text through 301
+            if tok[0] == "OK" and aupper(tok[2]) == "PRIVMSG" and len(tok[3]) >= 2 and actor in prev["users"]:
+                for tg in tok[3][0].split(","):
+                    u = prev["users"].get(tg)
+                    if u and u.get("away") is not None:
+                        for l in (s.get("out") or {}).get(str(ev[1]), []):
+                            rt = py_tokenize(l.replace("<NOCR>", ""))
+                            if rt[0] == "OK" and rt[2] == "301" and len(rt[3]) >= 2 and rt[3][1] == tg and rt[3][-1] != u["away"]:
+                                fails.append(("301 for %s carries %r, the AWAY text was %r" % (tg, rt[3][-1], u["away"]), {"step": s["k"]}))
+        cm.update(s)
+        if s.get("dump"):
+            prev = s["dump"]
+    return fails
+
+
+def c13_relay_traces(res):
+    rng = random.Random(res.seed + 13)
+    texts = ["plain", "two words", ":leading colon", "a:b", "trailing colon:", " leading blank", "", ":", "x :y :z", "é 漢字 😀", "tab\there", "a" * 300,
+             "1", "#a", "semi;colon", "\x01ACTION waves\x01"]
+    traces = []
+    n = 12 if res.tier == "quick" else 120
+    for i in range(n):
+        cfg = Config(operators=[dict(name="admin", password="operpass", mask=None)])
+        t = Trace("C13-relay-%d" % i, cfg)
+        for c, nk in enumerate(["alice", "bob", "carol"]):
+            t.register(c, nk)
+            t.line(c, "JOIN #a")
+        t.line(0, "OPER admin operpass")
+        t.line(1, "MODE bob +w")
+        t.line(2, "AWAY :" + rng.choice(texts[:-1] + ["gone fishing"]))
+        t.line(0, "MODE #a +o bob")
+        for _ in range(26):
+            c = rng.choice([0, 0, 1, 2])
+            me = ["alice", "bob", "carol"][c]
+            tx = rng.choice(texts)
+            k = rng.randint(0, 9)
+            colon = " :" if (" " in tx or tx == "" or tx.startswith(":") or rng.random() < 0.6) else " "
+            if k == 0:
+                t.line(c, "PRIVMSG #a" + colon + tx)
+            elif k == 1:
+                t.line(c, "NOTICE bob,#a" + colon + tx)
+            elif k == 2:
+                t.line(c, "TOPIC #a" + colon + tx)
+            elif k == 3:
+                t.line(c, "PART #a" + colon + tx)
+                t.line(c, "JOIN #a")
+            elif k == 4:
+                t.line(0, "KICK #a carol" + colon + tx)
+                t.line(2, "JOIN #a")
+            elif k == 5:
+                t.line(0, "WALLOPS" + colon + tx)
+            elif k == 6:
+                t.line(c, "PRIVMSG carol" + colon + tx)
+            elif k == 7:
+                t.line(c, "INVITE dave #a")
+            elif k == 8:
+                t.line(2, "AWAY" + colon + tx)
+            else:
+                t.line(c, "PRIVMSG #a,alice,carol" + colon + tx)
+        t.line(1, "NICK robert")
+        t.line(1, "PRIVMSG #a :renamed")
+        traces.append(t)
+    return traces
+
+
+def c13_framing_pairs(res):
+    """the same byte stream of one client under two segmentations; plus lines at, under and over the limit"""
+    rng = random.Random(res.seed + 131)
+    pairs = []
+    n = 10 if res.tier == "quick" else 100
+    cmds = [b"JOIN #a", b"PRIVMSG #a :hello there", b"TOPIC #a :new topic: x", b"MODE #a +tn", b"NAMES #a", b"PART #a :bye now", b"JOIN #a,#b", b"LUSERS",
+            b"  ", b"", b"WHO #a", b"privmsg bob :\xc3\xa9\xe6\xbc\xa2", b"FOO bar", b"USER", b"MODE #a +l", b"PING tok", b"KICK #a bob :out"]
+    for i in range(n):
+        seq = [rng.choice(cmds) for _ in range(rng.randint(4, 10))]
+        kind = rng.random()
+        if kind < 0.3:
+            L = rng.choice([1998, 1999, 2000])
+            seq.insert(rng.randint(0, len(seq)), b"PRIVMSG bob :" + b"y" * (L - 13))
+        stream = b"".join(x + (b"\r\n" if rng.random() < 0.8 else b"\n") for x in seq)
+        cuts = sorted(set(rng.randint(1, len(stream) - 1) for _ in range(rng.randint(1, 8))))
+        ts = []
+        for variant in ("whole", "split"):
+            t = Trace("C13-frame-%d-%s" % (i, variant), Config())
+            t.register(0, "alice")
+            t.register(1, "bob")
+            t.line(1, "JOIN #a")
+            if variant == "whole":
+                t.raw(0, stream)
+            else:
+                t.raw(0, stream, cuts)
+            t.line(0, "PING end")
+            t.line(1, "PING end")
+            t.line(1, "NAMES #a")
+            t.meta = {"stream": stream.decode("utf-8", "replace")[:400], "cuts": cuts}
+            ts.append(t)
+        pairs.append(tuple(ts))
+    # over-long line: 417, nothing of it executed, the connection may be closed
+    longs = []
+    for i, L in enumerate([2001, 2500, 5000] if res.tier == "quick" else [2001, 2002, 2048, 2500, 5000, 20000]):
+        t = Trace("C13-long-%d" % i, Config())
+        t.register(0, "alice")
+        t.register(1, "bob")
+        t.line(1, "JOIN #a")
+        t.raw(0, b"JOIN #a " + b"k" * (L - 8) + b"\r\nJOIN #b\r\n")
+        t.line(1, "NAMES #a")
+        t.line(1, "WHOIS alice")
+        longs.append(t)
+    return pairs, longs
+
+
+def check_C13(res):
+    rng = random.Random(res.seed + 1300)
+    n = 40000 if res.tier == "quick" else 400000
+    lines = list(dict.fromkeys(c13_line(rng) for _ in range(n)))
+    # A. tokenizer: implementation vs the grammar of the statement (python) and vs the model
+    ml = ["M " + hx(l) for l in lines]
+    mi, mm = run_pure(ml), run_pure(ml, model=True)
+    tie_fail = 0
+    spec_fail = 0
+    toks = []
+    for l, a, b in zip(lines, mi, mm):
+        tok = py_tokenize(l)
+        toks.append(tok)
+        exp = ("ERR " + tok[1]) if tok[0] == "ERR" else "OK " + json.dumps(rust_debug_message(tok), ensure_ascii=False)
+        got = a
+        if a.startswith("OK "):
+            got = "OK " + json.dumps(json.loads(a[3:]), ensure_ascii=False)
+        if got != exp:
+            spec_fail += 1
+            if spec_fail <= 3:
+                res.violation("the line %r is tokenised as %s; the IRC grammar gives %s" % (l, got, exp),
+                              {"kind": "pure", "case": "M " + hx(l), "line": l, "impl": a, "grammar": exp, "model": b}, found=True)
+        elif a != b:
+            tie_fail += 1
+    # B. command parser: classification (421 / 461 / executed-or-specific) and the tie
+    pl = ["P " + hx(l) for l in lines]
+    pi, pm = run_pure(pl), run_pure(pl, model=True)
+    classes = collections.Counter()
+    for l, tok, a, b in zip(lines, toks, pi, pm):
+        if tok[0] != "OK":
+            classes["tokenizer-" + tok[1]] += 1
+            continue
+        want = c13_classify(tok)
+        body = json.loads(a[a.index(" ") + 1:]) if (a.startswith("OK ") or a.startswith("CERR ")) else a
+        bad = None
+        if a.startswith("PANIC"):
+            bad = "aborts"
+        elif want and want.startswith("UnknownCommand"):
+            classes["421"] += 1
+            if not (a.startswith("CERR ") and body == want):
+                bad = "is answered %s, the verb is not an IRC command of this server (421 expected)" % a
+        elif want == "NeedMoreParams":
+            classes["461"] += 1
+            if not (a.startswith("CERR ") and body.startswith("NeedMoreParams(%sId)" % aupper(tok[2]))):
+                bad = "is answered %s with %d parameter(s), %s needs %d (461 expected)" % (a, len(tok[3]), aupper(tok[2]), VERB_MIN[aupper(tok[2])])
+        else:
+            if a.startswith("OK "):
+                classes["executed"] += 1
+                if not body.startswith(aupper(tok[2]) + (" " if "{" in body else "")) and body != aupper(tok[2]):
+                    bad = "is parsed as %s, the verb is %s" % (body, aupper(tok[2]))
+            elif a.startswith("CERR "):
+                kind = body.split("(")[0].split(" ")[0]
+                classes["invalid-" + kind] += 1
+                if kind in ("UnknownCommand", "NeedMoreParams"):
+                    bad = "is answered %s although the verb is known and has its %d parameter(s)" % (body, VERB_MIN[aupper(tok[2])])
+            else:
+                bad = "is answered %s" % a
+        if bad:
+            spec_fail += 1
+            if spec_fail <= 5:
+                res.violation("the line %r %s" % (l, bad), {"kind": "pure", "case": "P " + hx(l), "line": l, "impl": a, "model": b}, found=True)
+        elif a != b:
+            tie_fail += 1
+    # C. serialise with a source and re-parse with the real functions: same command and parameters
+    srcs = ["n!u@h", "é!ü@漢", "srv.irc"]
+    okl = [(l, tok) for l, tok in zip(lines, toks) if tok[0] == "OK"]
+    sl = ["S %s %s" % (hx(srcs[i % 3]), hx(l)) for i, (l, tok) in enumerate(okl)]
+    si, sm = run_pure(sl), run_pure(sl, model=True)
+    rl = []
+    for a in si:
+        try:
+            rl.append(json.loads(a))
+        except Exception:
+            rl.append(None)
+    back = run_pure(["M " + hx(x if x is not None else "") for x in rl])
+    rt_fail = 0
+    for i, ((l, tok), ser, a, b, bk) in enumerate(zip(okl, rl, si, sm, back)):
+        want = ("OK", srcs[i % 3], tok[2], tok[3])
+        exp = "OK " + json.dumps(rust_debug_message(want), ensure_ascii=False)
+        got = ("OK " + json.dumps(json.loads(bk[3:]), ensure_ascii=False)) if bk.startswith("OK ") else bk
+        if ser is None or got != exp:
+            rt_fail += 1
+            if rt_fail <= 3:
+                res.violation("the message of %r, serialised for relay as %r, re-parses as %s instead of %s" % (l, ser, got, exp),
+                              {"kind": "pure", "case": sl[i], "line": l, "serialised": ser, "reparsed": bk}, found=True)
+        elif a != b:
+            tie_fail += 1
+    if tie_fail and not (spec_fail or rt_fail):
+        res.violation("correspondence Parse.v vs command.rs differs on %d pure inputs" % tie_fail,
+                      {"kind": "tie", "note": "the implementation agrees with the grammar oracle on every explored input"}, found=False)
+    # D. on the wire
+    relay = c13_relay_traces(res)
+    pairs, longs = c13_framing_pairs(res)
+    flat = [t for p in pairs for t in p]
+    prof = {"weights": dict(BAD=6, PRIVMSG=8, TOPIC=4, PART=3, KICK=3, NICK=2, JOIN=6, MODE=4, MISC=1), "max_conns": 4, "initial_conns": 3}
+    ntr = 30 if res.tier == "quick" else 400
+    r = l2_campaign(res, "C13", ntr, 45, prof, traces=relay + flat + longs, oracle=relay_oracle)
+    impl = r["impl"]
+    meta_fail = 0
+    for a, b in pairs:
+        sa, sb = impl.get(a.id), impl.get(b.id)
+        if not sa or not sb:
+            continue
+
+        def view(steps):
+            outs = collections.defaultdict(list)
+            last = None
+            for s in sorted(steps, key=lambda s: s["k"]):
+                for c, ls in (s.get("out") or {}).items():
+                    outs[c] += ls
+                if s.get("dump"):
+                    last = s["dump"]
+            # hash-map order (353 / 352) is not part of the property: merged, sorted, as a multiset per connection
+            return {c: collections.Counter(irc.canon_lines(ls, a.cfg.name)) for c, ls in outs.items()}, last
+        va, vb = view(sa), view(sb)
+        if va != vb:
+            meta_fail += 1
+            if meta_fail <= 2:
+                res.violation("the same bytes give a different outcome when split across TCP segments at %r" % (b.meta["cuts"],),
+                              {"kind": "trace", "trace": b.describe(), "whole": a.describe(), "trace_file": b.render()}, found=True)
+    for t in longs:
+        st = impl.get(t.id) or []
+        seen417 = any(numeric_of(l) == "417" for s in st for l in (s.get("out") or {}).get("0", []))
+        last = [s["dump"] for s in st if s.get("dump")]
+        joined = last and any("alice" in ch["users"] for ch in last[-1]["channels"].values())
+        if not seen417 or joined:
+            res.violation("an over-long line is %s" % ("not answered with 417" if not seen417 else "partly executed (alice joined a channel)"),
+                          {"kind": "trace", "trace": t.describe(), "trace_file": t.render()}, found=True)
+    res.coverage.update({
+        "evaluations": 3 * len(lines) + r["steps"], "distinct_nontrivial": len(lines) + r["traces"],
+        "rule": "grammar-based lines (41 verbs in random letter case plus unknown verbs, 0..16 middle parameters from a pool with colons inside, blanks of every ASCII kind and repeated, optional "
+                "trailing parameter incl. empty / leading colon / tabs / CR / FF / NBSP / 400 characters, optional source incl. invalid ones, leading Unicode blanks): each distinct line goes through "
+                "(A) the real tokenizer vs a 25-line python statement of the grammar and vs the model, (B) the real Command::from_message vs the 421 / 461 / otherwise rule and vs the model, "
+                "(C) real to_string_with_source then the real tokenizer again (same command and parameters); on the wire: relay histories (PRIVMSG, NOTICE, TOPIC, PART, KICK, NICK, INVITE, WALLOPS, AWAY text "
+                "through 301) with the receiver-side re-parse oracle and the CRLF oracle, %d segmentation pairs (same bytes whole vs split at random offsets, bare LF and CRLF, lines of 1998..2000 bytes), "
+                "over-long lines (417, nothing executed), plus %d random histories; all compared with the model step by step" % (len(pairs), ntr),
+        "traces_validated_against_impl": r["traces"], "classes": dict(classes),
+        "samples": [{"line": lines[i], "tokens": toks[i], "parsed": pi[i]} for i in range(0, 40, 8)],
+        "l2": r["summary"]})
+    res.assumptions = ["the python grammar oracle and its Rust-Debug renderer are part of the trusted base of the check (not of the theorems)"]
